@@ -30,3 +30,37 @@ CLASSES = [
     },
 ]
 FUNCTIONS = []
+
+# What the spec type of `ServiceInfo` asserts and no body of `registry.py` can show (review r3-FN 5d / r3-C03): the objects that reach
+# the registry have a server (`server_key: Str`, so `assert info.server_key is not None` translates to `pyAssert true`), and
+# `server_key` is `server.lower()`, `key` is `name.lower()`.  Discharged by pins on the rest of the library, checked at stage T
+# (tools/fn_pins.py; a violated pin fails this area, hence C03):
+SOURCE_PINS = [
+    # every `registry.async_add / async_update / async_remove(x)` of the library is in `_core.py`, its argument a plain name, and is
+    # dominated in the same function by `x.set_server_if_missing()` (or `x` comes from the registry itself)
+    {"kind": "dominated_calls", "file": "_core.py", "receiver": "self.registry", "methods": ["async_add", "async_update", "async_remove"],
+     "guard": "set_server_if_missing", "from_registry": ["async_get_service_infos"]},
+    # … and the guard sets the server (and its key) when there is none
+    {"kind": "method_body", "file": "_services/info.py", "class": "ServiceInfo", "method": "set_server_if_missing",
+     "body": "if self.server is None:\n    self.server = self._name\n    self.server_key = self.key"},
+    # `server_key` is assigned only right after `server`, as its lower-cased form (or both copied from a DNSService, where the same holds)
+    {"kind": "paired_attrs", "attrs": ("server", "server_key"), "sites": {
+        ("_services/info.py", "ServiceInfo"): [("server if server else None", "server.lower() if server else None"),
+                                               ("dns_service_record.server", "dns_service_record.server_key"),
+                                               ("self._name", "self.key")],
+        ("_dns.py", "DNSService"): [("server", "server.lower()")]}},
+    # `key` is assigned only right after `_name`, as its lower-cased form (or both copied from a record: `DNSEntry.key = name.lower()`)
+    {"kind": "paired_attrs", "attrs": ("_name", "key"), "sites": {
+        ("_services/info.py", "ServiceInfo"): [("name", "name.lower()"), ("dns_service_record.name", "dns_service_record.key")]},
+     "b_also": [("_dns.py", "self.key = name.lower()")]},
+]
+
+SOURCE_PINS_DOC = """
+`ServiceInfo.server_key` is typed `Str` (not Optional): `assert info.server_key is not None` in `_add` / `_remove` translates to
+`pyAssert true`.  That raise site is discharged by the pins, not by the type: (1) every `registry.async_add / async_update /
+async_remove(x)` of the library is in `_core.py` and dominated, in the same function, by `x.set_server_if_missing()` (or `x` comes from
+`registry.async_get_service_infos()`); (2) `set_server_if_missing` is `if self.server is None: self.server = self._name; self.server_key
+= self.key`; (3) `server_key` is assigned only right after `server` as `server.lower()` (`ServiceInfo`, `DNSService`); (4) `key` only
+right after `_name` as `name.lower()`.  Likewise "a `ServiceInfo` / `DNSRecord` / `DNSQuestion` / `DNSIncoming` object is truthy": no
+mapped class, ancestor or descendant in the library defines `__bool__` or `__len__`.
+"""
